@@ -2,7 +2,7 @@
    Statements only; every proof is `exact <lemma>`.                                  *)
 From Coq Require Import ZArith NArith List Bool.
 From XV Require Import core.Value model.Hash model.Edits model.Serial model.Seal
-  proofs.Hash_lemmas proofs.Serial_lemmas proofs.Walk_reach_lemmas.
+  proofs.Hash_lemmas proofs.Serial_lemmas proofs.Walk_reach_lemmas proofs.ExecPlan_lemmas.
 Import ListNotations.
 
 (* one definition, loaded back, is the node it was written from: same class, meta flag (also an
@@ -65,3 +65,35 @@ Theorem C12_reload_full_identifier : forall cs H h fuel r h',
   forall f n d, n < length h -> full_pure H cs h f n = Ok d -> full_pure H cs h' f n = Ok d.
 Proof. exact reload_full_ident. Qed.
 Print Assumptions C12_reload_full_identifier.
+
+(* ---- what the job process executes before the task (fromParameters, instance mode) ----------- *)
+(* nothing is executed twice *)
+Theorem C12_exec_plan_nodup : forall ds, NoDup (exec_plan ds).
+Proof. exact exec_plan_nodup. Qed.
+Print Assumptions C12_exec_plan_nodup.
+
+(* every pre-task of every saved configuration is executed ... *)
+Theorem C12_exec_pre_complete : forall ds d p, In d ds -> In p (d_pre d) -> In p (snd (exec_pre ds)).
+Proof. exact exec_pre_complete. Qed.
+Print Assumptions C12_exec_pre_complete.
+
+(* ... and nothing else is executed as a pre-task *)
+Theorem C12_exec_pre_sound : forall ds p, In p (snd (exec_pre ds)) -> exists d, In d ds /\ In p (d_pre d).
+Proof. exact exec_pre_sound. Qed.
+Print Assumptions C12_exec_pre_sound.
+
+(* the init tasks executed are init tasks of the task that runs (the last definition), of no other task *)
+Theorem C12_exec_init_only_root : forall ds t,
+  In t (exec_init ds) -> exists d r, rev ds = d :: r /\ In t (d_init d).
+Proof. exact exec_init_only_root. Qed.
+Print Assumptions C12_exec_init_only_root.
+
+(* every init task of the task that runs is executed, as an init task or earlier as a pre-task *)
+Theorem C12_exec_init_complete : forall ds d r t, rev ds = d :: r -> In t (d_init d) -> In t (exec_plan ds).
+Proof. exact exec_init_complete. Qed.
+Print Assumptions C12_exec_init_complete.
+
+(* the variant that collects the init tasks of every definition executes a foreign init task *)
+Theorem C12_all_inits_refuted : exists ds t, In t (plan_all_inits ds) /\ ~ In t (exec_plan ds).
+Proof. exact all_inits_runs_foreign_init. Qed.
+Print Assumptions C12_all_inits_refuted.
